@@ -31,6 +31,7 @@ MON_OWNERS = {
     "M-move": ["C12"],
     "M-leak": ["C15"],
     "M-noreport": ["C16"],
+    "M-report": ["C16"],
     "M-fillnew": ["C17"],
     "M-fillfree": ["C17"],
     "M-counters": ["C18"],
@@ -52,7 +53,7 @@ def J(h, cfg, args, name=None, need=(), moves=False, own=()):
     return {"h": h, "cfg": cfg, "args": args, "name": name or f"{h}[{cfg}] {args}", "need": list(need), "moves": moves, "own": list(own)}
 
 
-def run_explore_check(prop, tier, jobs, only=None, time_s=None, note="", assumptions=None):
+def run_explore_check(prop, tier, jobs, only=None, time_s=None, note="", assumptions=None, enum_jobs=None):
     """jobs: list of J(). Builds harnesses (per cfg), runs all jobs on all cores, aggregates."""
     t0 = time.time()
     if only:
@@ -115,6 +116,12 @@ def run_explore_check(prop, tier, jobs, only=None, time_s=None, note="", assumpt
                     viol_lines.append((rp, rec))
             else:
                 foreign.append({"monitor": v["monitor"], "tag": v["tag"], "config": label, "detail": v["detail"]})
+    enum_cov, enum_viol, enum_errors = None, [], []
+    if enum_jobs:
+        ej = [j for j in enum_jobs if not only or only in j["name"]]
+        if ej:
+            enum_cov, enum_viol, enum_known, enum_errors = _run_enum(prop, tier, ej)
+            known_lines += enum_known
     wall = time.time() - t0
     vac_cfgs = [c["name"] for c in configs if c["vacuous_for"]]
     cov = {
@@ -134,7 +141,15 @@ def run_explore_check(prop, tier, jobs, only=None, time_s=None, note="", assumpt
         "known_findings_hit": sorted(set(known_lines)),
         "explanation": note,
     }
-    vlib.write_evidence(prop, tier, "model_checking", cov, wall, len(viol_lines), assumptions=assumptions)
+    if enum_cov is not None:
+        cov["enumeration_part"] = enum_cov
+        cov["evaluations"] = enum_cov["evaluations"]
+        cov["distinct_nontrivial"] = enum_cov["distinct_nontrivial"]
+        cov["rule"] = enum_cov["rule"]
+        cov["exhaustive"] = bool(cov["exhaustive"] and enum_cov["exhaustive"])
+        errors += enum_errors
+        cov["harness_errors"] = errors[:20]
+    vlib.write_evidence(prop, tier, "model_checking", cov, wall, len(viol_lines) + len(enum_viol), assumptions=assumptions)
     for l in sorted(set(known_lines)):
         print(l)
     for f in foreign[:5]:
@@ -144,10 +159,13 @@ def run_explore_check(prop, tier, jobs, only=None, time_s=None, note="", assumpt
             log("HARNESS ERROR: " + e)
     log(f"{prop} {tier}: {len(configs)} configurations, {tot_states} states, {tot_trans} transitions, "
         f"{sum(1 for c in configs if c['fixpoint'])} to fixpoint, {len(vac_cfgs)} vacuous, {len(viol_lines)} violation(s), {wall:.1f}s")
+    rc_enum = _report_enum_viol(prop, enum_viol, []) if enum_viol else 0
     if viol_lines:
         for rp, rec in viol_lines:
             print(f"VIOLATION property={prop} replay={rp}")
             log(f"  {rec['monitor']} [{rec['tag']}] {rec['detail']}\n  config: {rec['harness']}[{rec['cfg']}] {rec['args']}\n  history: {rec['history']}")
+        return 1
+    if rc_enum:
         return 1
     if errors:
         # harness errors are not property violations, but the run is not trustworthy
@@ -448,6 +466,55 @@ def check_C18_explore_jobs(tier):
             + stack_suite(tier, c, extra="--tries 1") + iter_suite(tier, c[:2]) + arena_suite(tier, c[:1]))
 
 
+def check_C16(prop, tier, only):
+    q = tier == "quick"
+    jobs = []
+    x = "--bad 1"
+    # positive part: every deliberately invalid call at every reachable state; negative part: M-noreport on the same valid histories
+    for cfg in (["rwd", "dbg", "chk"]):
+        jobs += [
+            J("h_pool", cfg, f"--type array --src constant --ns 16 --bs 80 --L {4 if q else 5} --B 2 --arrays 2 --arena 1024 {x}", name=f"pool/array/constant[{cfg}] bad", need=("bad_call_reported",) if cfg != "rwd" else ()),
+            J("h_pool", cfg, f"--type node --src constant --ns 16 --bs 80 --L {4 if q else 5} --B 2 --arena 1024 {x}", name=f"pool/node/constant[{cfg}] bad", need=("bad_call_reported",) if cfg != "rwd" else ()),
+            J("h_pool", cfg, f"--type small --src fixed --ns 4 --bs 1088 --L {3 if q else 4} --B 2 --arena 4096 {x}", name=f"pool/small/fixed[{cfg}] bad 1 chunk", need=("bad_call_reported",)),
+            J("h_pool", cfg, f"--type small --src constant --ns 1 --bs 304 --L 2 --B 2 --bulk 254 --arena 4096 --snap 1 --max_states 40000 {x}", name=f"pool/small/constant[{cfg}] bad 2 chunks", need=("bad_call_reported",)),
+            J("h_coll", cfg, f"--type array --buckets log2 --src fixed --maxns 32 --bs 288 --sizes 16,8 --arrays 2x16 --L {3 if q else 4} --B 2 --arena 2048 {x}", name=f"coll/array/log2/fixed[{cfg}] bad", need=("bad_call_reported",) if cfg != "rwd" else ()),
+            J("h_stack", cfg, f"--src constant --bs 64 --reqs 40x1,8x8 --L {3 if q else 4} --B 3 --arena 1024 --markers 2 {x}", name=f"stack/constant[{cfg}] bad", need=("bad_call_reported",) if cfg != "dbg" else ("bad_call_aborted",)),
+            J("h_stack", cfg, f"--src growing --bs 64 --reqs 8x8,24x1 --L 3 --B 3 --arena 1024 --markers 2 {x}", name=f"stack/growing[{cfg}] bad", need=()),
+        ]
+    # valid histories only (no false reports), incl. the configuration without any check
+    c = ["rwd", "dbg"] if q else ["rel", "rwd", "dbg"]
+    jobs += pool_suite("quick", c, extra="--tries 1") + coll_suite("quick", c) + stack_suite("quick", c) + iter_suite("quick", c[:1]) + arena_suite("quick", c[-1:])
+    enum_jobs = [J("h_badblock", cfg, "", name=f"badblock[{cfg}]") for cfg in (["rwd", "dbg", "chk"] + ([] if q else ["rel"]))]
+    return run_explore_check(prop, tier, jobs, only, enum_jobs=enum_jobs, note=NOTE_BFS +
+                             "positive part: at every state reached, every applicable invalid call (release of an already free node at list position 0..3 / last / middle; "
+                             "for small pools a pointer into a chunk header, above all blocks, and at every byte offset inside a node; unwind to a stale marker above the top) "
+                             "is executed under containment: it must end in the invalid-pointer handler or an abort, with arena memory and public counters still unchanged "
+                             "when the handler runs; LIFO block sources: all sequences of allocate/return (any block ever obtained) up to depth 5/7 on static, fixed and "
+                             "virtual block allocators. Negative part: M-noreport on all valid histories of the suites in every configuration")
+
+
+def check_C18(prop, tier, only):
+    import grids
+    jobs = check_C18_explore_jobs(tier)
+    return run_explore_check(prop, tier, jobs, only, enum_jobs=grids.jobs_minblock(tier), note=NOTE_BFS +
+                             "M-counters: capacity_left / pool_capacity_left change by exactly the nodes or bytes an operation takes or returns, next_capacity equals the size of "
+                             "the next upstream request, M-maxima: no request above max_node_size/max_array_size/max_alignment succeeds; plus the exhaustive "
+                             "min_block_size grid (node size x node count x pool type; byte sizes for stacks)")
+
+
+def check_C02(prop, tier, only):
+    import grids
+    c = cfgs_for(tier, thorough=("rel", "rwd", "dbg", "dbg16"))
+    jobs = (pool_suite(tier, c, extra="--tries 1", fams=("member", "traits")) + coll_suite(tier, c, fams=("member", "traits"))
+            + stack_suite(tier, c, extra="--tries 1") + iter_suite(tier, c[:2]))
+    return run_explore_check(prop, tier, jobs, only, enum_jobs=grids.jobs_sweep(tier), note=NOTE_BFS +
+                             "M-align / M-inside / M-disjoint on every transition (the harness writes all count*size bytes of every returned range and re-reads every live "
+                             "range after every operation); plus the exhaustive single-step request sweep over sizes, counts, alignments and three canonical positions")
+
+
+CHECKS["C16"] = check_C16
+CHECKS["C18"] = check_C18
+CHECKS["C02"] = check_C02
 CHECKS["C01"] = check_C01
 CHECKS["C03"] = check_C03
 CHECKS["C04"] = check_C04
@@ -459,14 +526,8 @@ CHECKS["C15"] = check_C15
 
 
 # ------------------------------------------------------------------ enumeration-style checks
-def run_enum_check(prop, tier, jobs, level="exploration", only=None, note="", assumptions=None, budget=None,
-                   harness_kw=None):
-    """jobs: list of J(); each harness run enumerates a finite input/fault domain and writes
-    {"evaluations","distinct_nontrivial","rule","samples","exhaustive","excluded","violations":[{"tag","detail","input"}]}.
-    A violation's "input" (any JSON value) is what `--replay '<json>'` of the same harness takes."""
-    t0 = time.time()
-    if only:
-        jobs = [j for j in jobs if only in j["name"]]
+def _run_enum(prop, tier, jobs, budget=None, harness_kw=None):
+    """runs enumeration harness jobs; returns (coverage dict, violations [(replay path, rec)], known lines, errors)"""
     budget = budget or (150 if tier == "quick" else 1500)
     import concurrent.futures as cf
     exes = {}
@@ -509,16 +570,33 @@ def run_enum_check(prop, tier, jobs, level="exploration", only=None, note="", as
             elif (fp, j["cfg"]) not in seen_fp:
                 seen_fp.add((fp, j["cfg"]))
                 viol.append((vlib.write_replay(prop, rec), rec))
+    cov = {"evaluations": ev, "distinct_nontrivial": dn, "rule": " || ".join(rules), "samples": samples or [{"note": "none"}],
+           "exhaustive": bool(exhaustive and not errors), "excluded_by_rule": excl, "per_configuration": per}
+    return cov, viol, known, errors
+
+
+def run_enum_check(prop, tier, jobs, level="exploration", only=None, note="", assumptions=None, budget=None,
+                   harness_kw=None):
+    """jobs: list of J(); each harness run enumerates a finite input/fault domain and writes
+    {"evaluations","distinct_nontrivial","rule","samples","exhaustive","excluded","violations":[{"tag","detail","input"}]}.
+    A violation's "input" (any JSON value) is what `--replay '<json>'` of the same harness takes."""
+    t0 = time.time()
+    if only:
+        jobs = [j for j in jobs if only in j["name"]]
+    cov, viol, known, errors = _run_enum(prop, tier, jobs, budget, harness_kw)
     wall = time.time() - t0
-    cov = {"evaluations": ev, "distinct_nontrivial": dn, "rule": " || ".join(rules) or note, "samples": samples or [{"note": "none"}],
-           "exhaustive": bool(exhaustive and not errors), "excluded_by_rule": excl, "per_configuration": per,
-           "harness_errors": errors[:20], "known_findings_hit": sorted(set(known)), "explanation": note}
+    cov["rule"] = cov["rule"] or note
+    cov.update({"harness_errors": errors[:20], "known_findings_hit": sorted(set(known)), "explanation": note})
     vlib.write_evidence(prop, tier, level, cov, wall, len(viol), assumptions=assumptions)
     for l in sorted(set(known)):
         print(l)
     for e in errors[:10]:
         log("HARNESS ERROR: " + e)
-    log(f"{prop} {tier}: {len(per)} runs, {ev} evaluations, {dn} distinct non-trivial, {len(viol)} violation(s), {wall:.1f}s")
+    log(f"{prop} {tier}: {len(cov['per_configuration'])} runs, {cov['evaluations']} evaluations, {cov['distinct_nontrivial']} distinct non-trivial, {len(viol)} violation(s), {wall:.1f}s")
+    return _report_enum_viol(prop, viol, errors)
+
+
+def _report_enum_viol(prop, viol, errors):
     if viol:
         for rp, rec in viol:
             print(f"VIOLATION property={prop} replay={rp}")
